@@ -243,6 +243,7 @@ class Block:
 class Func:
     def __init__(self, d, unit):
         self.unit = unit
+        self._raw = d
         self.name = d["fn"]
         self.qname = d.get("qfn", self.name)
         self.file = norm(d["file"])
